@@ -369,8 +369,12 @@ def mask_plumbing(ctx):
     if not reads:
         raise AnalysisError('get_unstructured_mask: range read not found')
     c = reads[0]
-    ok = len(c.args) >= 3 and U(c.args[1]) == 'self.segy_traceheader_template[189]' and \
-        U(c.args[2]) == 'self.header_entry_length_bytes'
+    off = c.args[1] if len(c.args) >= 3 else None
+    if isinstance(off, ast.Name):
+        ds = [a for a in ast.walk(gm.node) if isinstance(a, ast.Assign) and len(a.targets) == 1 and U(a.targets[0]) == off.id]
+        off = ds[0].value if len(ds) == 1 else off
+    ok = isinstance(off, ast.Subscript) and U(off.value) == 'self.segy_traceheader_template' and \
+        TB.tracefield_code(P, gm, off.slice) == 189 and U(c.args[2]) == 'self.header_entry_length_bytes'
     if ok:
         ctx.ok('C08.5', gm, c, 'mask = stored array of field 189, unpadded length')
     else:
